@@ -116,6 +116,31 @@ func c02build() {
 				c02matrix = append(c02matrix, c02case{Name: kind + "/read-after-eof/" + name + "/probed", Subject: "mem", Init: init, Steps: steps})
 			}
 		}
+		// a file that carries a special mode bit is a regular file like any other: its handles follow its size
+		for _, kind := range []string{"ro", "rw", "rw+app"} {
+			for _, mode := range []uint32{uint32(os.ModeSticky) | 0o644, uint32(os.ModeSetuid|os.ModeSetgid) | 0o755} {
+				steps := []fsx.Step{{K: "Chmod", P: "f", Perm: mode}, c02open(0, kind), {K: "H.Seek", Slot: 0, Off: 0, Whence: io.SeekEnd}, c02open(1, "rw"), {K: "H.WriteAt", Slot: 1, Data: "GROWN", Off: 10},
+					{K: "H.Seek", Slot: 0, Off: 2, Whence: io.SeekStart}, {K: "H.Read", Slot: 0, N: 20}, {K: "H.Stat", Slot: 0}, {K: "H.Seek", Slot: 0, Off: 0, Whence: io.SeekEnd}, {K: "H.Write", Slot: 0, Data: "TAIL"},
+					{K: "H.Truncate", Slot: 1, Off: 3}, {K: "H.Seek", Slot: 0, Off: 0, Whence: io.SeekEnd}, {K: "H.Read", Slot: 0, N: 4}, {K: "ReadFile", P: "f"}}
+				c02matrix = append(c02matrix, c02case{Name: fmt.Sprintf("%s/special-mode-file/%o", kind, mode), Subject: "mem", Init: init, Steps: steps})
+			}
+		}
+		// a handle kept across a Rename of its file (or of the directory above it) and a handle opened under the new name are
+		// handles of ONE file: each sees what the other writes
+		for _, via := range []string{"file", "ancestor"} {
+			old, renamed := "f", "g"
+			mv := fsx.Step{K: "Rename", P: "f", P2: "g"}
+			pre := []fsx.Step{}
+			if via == "ancestor" {
+				old, renamed = "d/in", "e/in"
+				pre = []fsx.Step{{K: "WriteFullFile", P: "d/in", Data: init, Perm: 0o644}}
+				mv = fsx.Step{K: "Rename", P: "d", P2: "e"}
+			}
+			steps := append(pre, fsx.Step{K: "Open", P: old, Flag: os.O_RDWR, Slot: 0}, fsx.Step{K: "H.Read", Slot: 0, N: 3}, mv, fsx.Step{K: "Open", P: renamed, Flag: os.O_RDWR, Slot: 1},
+				fsx.Step{K: "H.WriteAt", Slot: 1, Data: "NEW", Off: 0}, fsx.Step{K: "H.ReadAt", Slot: 0, N: 10, Off: 0}, fsx.Step{K: "H.Truncate", Slot: 1, Off: 20}, fsx.Step{K: "H.Stat", Slot: 0},
+				fsx.Step{K: "H.Seek", Slot: 0, Off: 0, Whence: io.SeekEnd}, fsx.Step{K: "H.ReadAt", Slot: 1, N: 30, Off: 0}, fsx.Step{K: "ReadFile", P: renamed})
+			c02matrix = append(c02matrix, c02case{Name: "rw/handle-across-rename-of-" + via, Subject: "mem", Init: init, Steps: steps})
+		}
 		// an Open that fails (exclusive create of a name that exists, with and without O_TRUNC; O_TRUNC on a directory) while a
 		// handle on the file is open: the handle goes on reading what it read before
 		for _, fl := range []int{os.O_RDWR | os.O_CREATE | os.O_EXCL | os.O_TRUNC, os.O_WRONLY | os.O_CREATE | os.O_EXCL | os.O_TRUNC | os.O_APPEND, os.O_RDWR | os.O_CREATE | os.O_EXCL} {
